@@ -6,7 +6,7 @@
    (names end in _bounded). *)
 From Coq Require Import ZArith List Bool.
 Import ListNotations.
-From CF Require Import ZSum ListAux Defs Core Machines Config ConfigLink BoundsLink ParkingLink.
+From CF Require Import ZSum ListAux Defs Core Machines Config ConfigLink BoundsLink ParkingLink PyLib Translated TranslatedLink.
 Open Scope Z_scope.
 
 Theorem C10_legal : forall g, wfb g = true -> forall D S, (forall v, In v S -> In v (Vg g)) ->
@@ -49,6 +49,16 @@ Print Assumptions C10_superstables_of_Kn_are_parking_functions.
 Theorem C10_parking_predicate_forms_agree : forall a, a <> [] -> is_parking a = is_parking_count a.
 Proof. exact parking_forms_agree. Qed.
 Print Assumptions C10_parking_predicate_forms_agree.
+
+(* ---- tie to the source text: the functions translated from /repo's current CFCombinatorics.py (Translated.v, regenerated on every run) are
+   the model functions used above ---- *)
+Theorem C10_source_is_parking_function : forall a, Translated.is_parking_function a None = is_parking a /\
+  forall n, Translated.is_parking_function a (Some n) = is_parking_n a (Z.to_nat n).
+Proof. intros a. split; [apply is_parking_function_none|intros n; apply is_parking_function_some]. Qed.
+Print Assumptions C10_source_is_parking_function.
+Theorem C10_source_parking_function_count : forall n, Translated.parking_function_count n = parking_count (Z.to_nat n).
+Proof. exact parking_function_count_eq. Qed.
+Print Assumptions C10_source_parking_function_count.
 
 (* ---- bounded identities (complete finite domains, kernel computation) ---- *)
 (* K_(n+1), n <= 4, sink 0: a configuration in the box [0..n]^n is superstable iff shifting it up by one gives a parking function *)
